@@ -78,6 +78,14 @@ pub fn main(args: &[String]) {
     let ext = parse_ext_list(arg(args, "--ext").unwrap_or("all"))[0];
     let conv = arg(args, "--conv").unwrap_or("b");
     let seed: u64 = std::env::var("VERIF_SEED").ok().and_then(|s| s.parse().ok()).unwrap_or(1);
+    // `--one op:i`: this process makes exactly one call on a fresh parser and prints its hash
+    if let Some(one) = arg(args, "--one") {
+        let (op, i) = one.split_once(':').expect("--one op:index");
+        let i: usize = i.parse().unwrap();
+        let fresh = CooklangParser::new(ext_from_bits(ext), converter(conv));
+        println!("{}", json!({"op": op, "input": i, "hash": call(&fresh, op, &inputs[i])}));
+        return;
+    }
     let parser = Arc::new(CooklangParser::new(ext_from_bits(ext), converter(conv)));
     let inputs = Arc::new(inputs);
 
@@ -124,12 +132,20 @@ pub fn main(args: &[String]) {
             }
         }
     }
-    // (3) baselines: a fresh parser for every call
+    // (3) baselines: a fresh parser for every call - computed here, or (--base file) taken from pristine processes,
+    // one per (operation, input), so that process-wide state cannot leak into the baseline either
     let mut base = std::collections::HashMap::new();
-    for op in OPS {
-        for (i, text) in inputs.iter().enumerate() {
-            let fresh = CooklangParser::new(ext_from_bits(ext), converter(conv));
-            base.insert((op, i), call(&fresh, op, text));
+    if let Some(bf) = arg(args, "--base") {
+        for r in read_ndjson(bf) {
+            let op = OPS.iter().copied().find(|o| Some(*o) == r["op"].as_str()).expect("op");
+            base.insert((op, r["input"].as_u64().unwrap() as usize), r["hash"].as_str().unwrap().to_string());
+        }
+    } else {
+        for op in OPS {
+            for (i, text) in inputs.iter().enumerate() {
+                let fresh = CooklangParser::new(ext_from_bits(ext), converter(conv));
+                base.insert((op, i), call(&fresh, op, text));
+            }
         }
     }
     let mut out = vec![json!({"ev": "Reset", "t": 0, "seq": 0, "op": "", "input": 0, "hash": "", "base": ""})];
